@@ -14,6 +14,7 @@ import (
 	"os"
 	"runtime"
 	"strconv"
+	"strings"
 	"sync"
 	"time"
 )
@@ -29,6 +30,8 @@ type Input struct {
 type Replay struct {
 	Inputs  []Input           `json:"inputs"`
 	Params  map[string]string `json:"params"`
+	// Docs: documents built by Arbitrary under the symbolic executor, rendered as text
+	Docs    map[string]string `json:"docs"`
 	pos     int
 	racy    bool
 	rng     uint64
@@ -69,6 +72,11 @@ var mu sync.Mutex
 func next(name, kind string) uint64 {
 	mu.Lock()
 	defer mu.Unlock()
+	// inputs of lazily built documents (Arbitrary) are not consumed in sequence: natively the
+	// rendered document (Document) takes their place
+	for cur.pos < len(cur.Inputs) && strings.HasPrefix(cur.Inputs[cur.pos].Kind, "lz:") {
+		cur.pos++
+	}
 	if cur.pos >= len(cur.Inputs) {
 		// inputs past the recorded ones were never constrained: any value will do
 		cur.pos++
@@ -108,6 +116,22 @@ func Bytes(name string, n int) []byte {
 
 // String returns a string of n arbitrary bytes.
 func String(name string, n int) string { return string(Bytes(name, n)) }
+
+// Arbitrary stores an arbitrary decoded value of the pointee type into *ptr (symbolic executor
+// only: it is called from the decoder stubs that replace json/toml/yaml decoding there; natively
+// the real decoder reads the text returned by Document).
+func Arbitrary(ptr any, doc, format string) {
+	panic("verifrt.Arbitrary is only meaningful under the symbolic executor")
+}
+
+// Document returns the text of a document built by Arbitrary (natively: rendered from the
+// recorded run; under the symbolic executor: a placeholder, the decoder being stubbed).
+func Document(doc string) []byte {
+	if s, ok := cur.Docs[doc]; ok {
+		return []byte(s)
+	}
+	return []byte("{}")
+}
 
 // Choice returns an arbitrary value in [0,n); every value is explored.
 func Choice(name string, n int) int { return int(next(name, "choice")) }
